@@ -1168,6 +1168,7 @@ GROUND_TEXTS = [("wsh(sortedmulti(13303", "qqqqgfpg"), ("wsh(sortedmulti(18622",
 
 def p_ground(idx, cs):
     """a descriptor whose checksum consists of digits only / of three letters / begins and ends with "qq" """
+    cs = _s(cs)
     body = GROUND_PRE + "%d/*))" % idx
     if ref_checksum(body) != cs:
         return "harness: the ground checksum is not Bitcoin Core's checksum"
@@ -1197,6 +1198,14 @@ def p_ground(idx, cs):
     return None
 
 
+def p_address_at(m, recs, offset, chg, srt):
+    """one address of a wallet whose records need not be distinct (the same xpub in two slots)"""
+    o = P2WSHSortedMulti(m, mkrecs(recs))
+    exp = ref_expected(m, recs)
+    got, want = o.get_address(offset, bool(chg), bool(srt)), _ref_addr(m, exp[0], exp[3], offset, chg, srt)
+    return None if got == want else f"get_address({offset}, {bool(chg)}, {bool(srt)}) gives {got}, expected {want}"
+
+
 def p_checksum_is(t, cs):
     t, cs = _s(t), _s(cs)
     if ref_checksum(t) != cs:
@@ -1212,7 +1221,7 @@ PROPS = {"path_assumptions": p_path_assumptions, "xpub_assumptions": p_xpub_assu
          "reuse_desc": p_reuse_desc, "checksum_order": p_checksum_order, "parse_order": p_parse_order,
          "ctor_pure": p_ctor_pure, "reuse_hdpub": p_reuse_hdpub,
          "defaults": p_defaults, "mw_flow": p_mw_flow, "share": p_share, "fail_retry": p_fail_retry,
-         "caravan": p_caravan, "ground": p_ground, "checksum_is": p_checksum_is}
+         "caravan": p_caravan, "ground": p_ground, "checksum_is": p_checksum_is, "address_at": p_address_at}
 
 
 def classify(v):
@@ -1674,9 +1683,12 @@ def generate(ctx):
         texts is the reverse of the order of the normalised xpubs, and the supplied order is neither"""
         keys = sorted(r.sample(pool[net], n), key=lambda k: k.plain)
         vs = MAIN_VERSIONS if net == "mainnet" else TEST_VERSIONS
-        texts = sorted(vs, key=lambda v: with_version(keys[0].plain, v)[:4], reverse=True)
+        desc = sorted(vs, key=lambda v: with_version(keys[0].plain, v)[:4], reverse=True)
+        above = [v for v in desc if with_version(keys[0].plain, v)[:4] > keys[0].plain[:4]]
+        order = (above[:min(n - 1, len(above))] + [vs[0]] + [v for v in desc if v not in above and v != vs[0]] + desc[-1:] * n)[:n]
         idxs = [1, 0, 7, 2 ** 31 - 2, 2, 5]
-        recs = [[k.xfp, k.path, with_version(k.plain, texts[j % len(texts)]), idxs[j]] for j, k in enumerate(keys)]
+        recs = [[k.xfp, k.path, with_version(k.plain, order[j]), idxs[j]] for j, k in enumerate(keys)]
+        assert any(q[2] == k.plain for q, k in zip(recs, keys)) and any(q[2] != k.plain for q, k in zip(recs, keys))
         return recs[1:] + recs[:1]
 
     hets = [(2, "mainnet", hetero("mainnet", 3)), (1, "testnet", hetero("testnet", 2))]
@@ -1688,6 +1700,7 @@ def generate(ctx):
         exp = ref_expected(m, recs)
         sup = [ref_norm_xpub(k)[0] for _, _, k, _ in recs]
         assert sorted(sup) != sup and sorted(k for _, _, k, _ in recs) != [k for _, _, k, _ in sorted(recs, key=lambda q: ref_norm_xpub(q[2])[0])]
+        ctx.label("audit/slip132-order-differs-from-xpub-order")
         yield construct_case(m, recs)
         yield construct_case(m, recs, srt=0)
         yield construct_case(m, recs, cs=exp[2])
@@ -1735,6 +1748,7 @@ def generate(ctx):
             yield ("prop", "defaults", [1, dup, 2])
         else:
             yield address_case(1, 0, dup, 1, int(i0 == 3), srt=int(i0 == 3))
+        yield ("prop", "address_at", [2, dup, 1, int(i0 == 3), int(i0 != 5)])
     for recs in ([a.rec(r), b.rec(r), t.rec(r)], [t.rec(r), pool["testnet"][1].rec(r), a.rec(r, slip=True)],
                  [a.rec(r, slip=True), t.rec(r, slip=True), b.rec(r)]):
         ctx.label("audit/network-mix-3")
@@ -1749,11 +1763,12 @@ def generate(ctx):
         yield parse_case(1, [[xf, a.path[1:], a.plain, 0]], "")
         yield ("prop", "ctor_own_output", [1, [[xf, a.path, a.plain, 0]]])
     # (e) a character outside the descriptor charset inside an otherwise valid path (is_valid_bip32_path is forgiving)
-    for bp in ["m/48h/\t1", "m/48h/1\n", "m/\x0b1", "m/1\x1f/2", "m/1\xa0"]:
+    for bp in ["m/48h/\t1", "m/48h/1\n", "m/\x0b1", "m/1\x1f/2", "m/1\xa0", "m/\u20031"]:
         ctx.label("audit/foreign-char-in-path")
-        yield construct_case(1, [[a.xfp, bp, a.plain, 0]])
         yield ("prop", "ctor_own_output", [1, [[a.xfp, bp, a.plain, 0]]])
-        yield ptext_case(f"wsh(sortedmulti(1,[{a.xfp}{bp[1:]}]{a.plain}/0/*))")
+        if bp.isascii():      # the text layer of the model is ASCII (see ASSUMPTIONS): Unicode blanks only through the predicate
+            yield construct_case(1, [[a.xfp, bp, a.plain, 0]])
+            yield ptext_case(f"wsh(sortedmulti(1,[{a.xfp}{bp[1:]}]{a.plain}/0/*))")
     # (d) checksum texts of a single character class, and texts / descriptors whose CHECKSUM is of an unusual class
     for g in range(3):
         alpha = INPUT_CHARSET[32 * g: 32 * g + 32]
